@@ -362,8 +362,9 @@ Top:
 	switch to := obj.(type) {
 	case List:
 		if int(p.Level) <= level {
-			obj = Symbol("#")
-			goto Top
+			n.buf = []byte{'#'}
+			n.size = 1
+			break
 		}
 		if 0 < len(to) {
 			l2 := level + 1
@@ -386,7 +387,12 @@ Top:
 			n.size = 2
 		}
 	case Symbol:
-		n.buf = []byte(p.caseName(string(to)))
+		if to.readsBare(p) {
+			n.buf = []byte(p.caseName(string(to)))
+		} else {
+			// Bars only when the name can not be read back without them.
+			n.buf = to.Readably(nil, p)
+		}
 		n.size = len(n.buf)
 	case SpecialSyntax:
 		obj = to.GetArgs()[0]
